@@ -524,5 +524,13 @@ def divide_outputs(
         if not isinstance(e, MailboxKilled):
             raise
     else:
-        for m in mbs_to_kill:
-            m.close()
+        try:
+            for m in mbs_to_kill:
+                m.close()
+        except Exception as e:
+            # One of the mailboxes was killed meanwhile: take the others down too,
+            # otherwise their readers wait for a close that never comes
+            for m in mbs_to_kill:
+                m.kill_from_exception(e, reraise=False)
+            if not isinstance(e, MailboxKilled):
+                raise
